@@ -235,6 +235,23 @@ class Harness(object):
                     if sorted(g_old) != w_old:
                         raise Violation("C19/stale-sources-misreported", "%s get_identity(subject %d, check=%s) stale %r, model %r" % (
                             name, s, check, sorted(g_old), w_old))
+                # the same question with the sources named explicitly, in every kind of container a caller may hand over (a list, a tuple, an
+                # iterator, a generator, a dict view, a filter object): the answer does not depend on the container
+                if s in self.model and self.model[s]:
+                    names = sorted(self.model[s].keys())
+                    w_res, w_old = self.m_identity(s, True)
+                    forms = {"list": lambda: list(names), "tuple": lambda: tuple(names), "iterator": lambda: iter(names), "generator": lambda: (n for n in names),
+                             "dict-keys": lambda: dict.fromkeys(names).keys(), "filter": lambda: filter(None, names), "reversed": lambda: reversed(names)}
+                    for fname in sorted(forms):
+                        try:
+                            g_res, g_old = b.get_identity(nid, forms[fname](), True)
+                        except Exception as exc:
+                            raise Violation("C19/get_identity-raised", "%s get_identity(subject %d, entities=<%s of its sources>): %r" % (name, s, fname, exc))
+                        self.hit("identity_checks_named_sources")
+                        if {k: set(v) for k, v in g_res.items()} != w_res or sorted(g_old) != w_old:
+                            raise Violation("C19/answer-depends-on-the-container-of-source-names", "%s get_identity(subject %d, entities=<%s>) = (%r, stale %r), with a list the "
+                                            "model says (%r, stale %r)" % (name, s, fname, {k: sorted(v) for k, v in g_res.items()}, sorted(g_old),
+                                                                          {k: sorted(v) for k, v in w_res.items()}, w_old))
                 # entities
                 want_e = sorted(self.model[s].keys()) if s in self.model else "raise:KeyError"
                 try:
